@@ -45,16 +45,17 @@ type c08Event struct {
 }
 
 type c08Prog struct {
-	Family  string     `json:"family"`
-	Src     string     `json:"program"`
-	Input   []string   `json:"input,omitempty"`
-	Events  []c08Event `json:"events,omitempty"`
-	Site    string     `json:"site,omitempty"` // model site, "" = oracle only
-	Case    string     `json:"case,omitempty"` // S-expression sent to the model
-	N       int        `json:"n,omitempty"`    // entries of the order-relevant Go map
-	Dep     bool       `json:"dependent_by_construction,omitempty"`
-	Fixed   bool       `json:"has_fixed_type,omitempty"`
-	Witness string     `json:"model_witness,omitempty"`
+	Family   string     `json:"family"`
+	Src      string     `json:"program"`
+	Input    []string   `json:"input,omitempty"`
+	Events   []c08Event `json:"events,omitempty"`
+	Site     string     `json:"site,omitempty"` // model site, "" = oracle only
+	Case     string     `json:"case,omitempty"` // S-expression sent to the model
+	N        int        `json:"n,omitempty"`    // entries of the order-relevant Go map
+	Dep      bool       `json:"dependent_by_construction,omitempty"`
+	Fixed    bool       `json:"has_fixed_type,omitempty"`
+	Witness  string     `json:"model_witness,omitempty"`
+	Pristine bool       `json:"pristine_run,omitempty"` // additionally run alone in a process of its own
 }
 
 // c08Obs are the observables of one repetition.
@@ -260,7 +261,19 @@ func sortedLines(s string) string {
 	return strings.Join(l, "\n")
 }
 
-func c08Classify(p c08Prog, variants []c08Obs) (key, detail string) {
+func c08Classify(p c08Prog, variants []c08Obs, inproc []string, pristine string) (key, detail string) {
+	// state surviving from one run to the next in the same process: the in-process
+	// runs settle (#1.. identical) but differ from run #0 or from the run in a pristine process
+	settled := len(inproc) >= 4
+	for _, k := range inproc[1:] {
+		if k != inproc[1] {
+			settled = false
+		}
+	}
+	leak := settled && (inproc[0] != inproc[1] || (pristine != "" && pristine != inproc[1]))
+	if strings.HasPrefix(p.Family, "global-state") || p.Family == "corpus-global-state" {
+		leak = leak || (pristine != "" && len(variants) > 1)
+	}
 	differ := map[string]bool{}
 	for _, f := range variants[0].fields() {
 		for _, v := range variants[1:] {
@@ -315,6 +328,8 @@ func c08Classify(p c08Prog, variants []c08Obs) (key, detail string) {
 		return "parseFontProps-error-choice", "font with several bad properties reports a different one from run to run (parseFontProps ranges over arg.Pairs)"
 	case (differ["trace"] || differ["svg"]) && regexp.MustCompile(`\]\)?\s*\*\s*\d`).MatchString(p.Src) && strings.Contains(p.Src, "{"):
 		return "deepCopy-map-key-order", "a map that was deep-copied by array repetition prints / iterates its keys in a different order from run to run (evaluator.deepCopy must reproduce the source's Order)"
+	case leak:
+		return "state-leaks-across-runs", "a run in a process that has already run a program differs from the same run in a pristine process: evaluator/parser state survives from one run to the next (every run uses a fresh NewEvaluator and Platform)"
 	case differ["trace"] || differ["svg"] || differ["err"] || differ["class"]:
 		if strings.Contains(p.Src, "{") && regexp.MustCompile(`\{[^}]*:\s*\(`).MatchString(p.Src) {
 			return "evalMapLiteral-eval-order", "the values of a map literal are evaluated in a different order from run to run (evalMapLiteral ranges over m.Pairs): effects and the reported error vary"
@@ -337,6 +352,9 @@ var (
 func c08ModelObs(p c08Prog, o c08Obs) string {
 	switch p.Site {
 	case "validateScope":
+		if o.Parse == "" {
+			return "()" // accepted: no unused variable
+		}
 		var l []SX
 		for _, line := range strings.Split(o.Parse, "\n") {
 			m := reUnused.FindStringSubmatch(line)
@@ -857,6 +875,84 @@ func genDeepCopy(rng *rand.Rand) c08Prog {
 	return c08Prog{Family: "map-deepcopy-by-repetition", Src: b.String(), N: n}
 }
 
+// genGlobalState: programs that OBSERVE the predefined globals err / errmsg /
+// pi before any conversion and END in a state different from the initial one
+// (last conversion failing; success after failure; explicit assignment to the
+// globals). Any evaluator state that survives from one run to the next run in
+// the same process shows as a difference between the repetitions, and against
+// the run in a pristine process.
+func genGlobalState(rng *rand.Rand) c08Prog {
+	var b strings.Builder
+	heads := []string{
+		"print err errmsg pi\n",
+		"print (err == false) (errmsg == \"\") (len errmsg) (pi > 3.14) (pi < 3.15)\n",
+		"if errmsg != \"\"\n    print \"stale\" errmsg[0] errmsg[-1]\nelse\n    print \"clean\"\nend\n",
+		"if err\n    print \"err already set:\" errmsg\nend\nprint (sprintf \"%v|%v|%v\" err errmsg (round pi*1000))\n",
+		"e0 := err\nm0 := errmsg\np0 := pi\nprint e0 m0 p0 (typeof err) (typeof errmsg)\n",
+	}
+	for _, i := range rng.Perm(len(heads))[:1+rng.Intn(3)] {
+		b.WriteString(heads[i])
+	}
+	b.WriteString("func show tag:string\n    print tag err errmsg pi\nend\n")
+	bad := []string{"n%[1]d := str2num \"12x\"\nprint n%[1]d\n", "n%[1]d := str2num \"\"\nprint n%[1]d\n", "b%[1]d := str2bool \"maybe\"\nprint b%[1]d\n", "n%[1]d := str2num \"1e999x\"\nprint n%[1]d\n", "b%[1]d := str2bool \"2\"\nprint b%[1]d\n"}
+	good := []string{"n%[1]d := str2num \"42\"\nprint n%[1]d\n", "b%[1]d := str2bool \"true\"\nprint b%[1]d\n", "n%[1]d := str2num \"-0.5\"\nprint n%[1]d\n"}
+	mid := []string{
+		"show \"mid\"\n",
+		"test err false\n",
+		"test true\n",
+		"test (len errmsg) 0\n",
+		"for i := range 2\n    q := str2num (sprintf \"%vz\" i)\n    print i q err\nend\n",
+		"print [err] {e:errmsg p:pi}\n",
+	}
+	k := 0
+	stmt := func(l []string) {
+		k++
+		fmt.Fprintf(&b, l[rng.Intn(len(l))], k)
+		if rng.Intn(2) == 0 {
+			fmt.Fprintf(&b, "show \"after %d\"\n", k)
+		}
+	}
+	handlers := rng.Intn(3) == 0
+	if handlers {
+		b.WriteString("on key c:string\n    print \"key\" c err errmsg\n    z := str2num c\n    print z err errmsg\nend\n")
+		b.WriteString("on down x:num y:num\n    print \"down\" x y err errmsg pi\n    errmsg = \"handler\"\nend\n")
+	}
+	for i := 0; i < 1+rng.Intn(4); i++ {
+		switch rng.Intn(4) {
+		case 0:
+			stmt(good)
+		case 1:
+			b.WriteString(mid[rng.Intn(len(mid))])
+		default:
+			stmt(bad)
+		}
+	}
+	ending := "last-conversion-fails"
+	switch r := rng.Intn(10); {
+	case r < 5:
+		stmt(bad)
+	case r < 7:
+		stmt(bad)
+		stmt(good)
+		ending = "success-after-failure"
+	case r < 8:
+		b.WriteString("pi = 3\nprint pi\n")
+		ending = "assign-pi"
+	case r < 9:
+		b.WriteString("err = true\nerrmsg = \"mine\"\nshow \"assigned\"\n")
+		ending = "assign-err"
+	default:
+		stmt(bad)
+		b.WriteString("pi = pi * 2\nerrmsg = errmsg + \"!\"\n")
+		ending = "fail-then-assign"
+	}
+	p := c08Prog{Family: "global-state:" + ending, Src: b.String(), Pristine: true}
+	if handlers {
+		p.Events = []c08Event{{"key", []any{"7"}}, {"down", []any{1.0, 2.0}}, {"key", []any{"x"}}}
+	}
+	return p
+}
+
 func genMapsMisc(rng *rand.Rand) c08Prog {
 	n := c08PickN(rng)
 	perm := rng.Perm(n)
@@ -991,12 +1087,14 @@ func genC08(rng *rand.Rand) c08Prog {
 		return genMapsMisc(rng)
 	case k < 78:
 		return genDeepCopy(rng)
-	case k < 84:
+	case k < 82:
 		return genEvents(rng)
-	case k < 90:
+	case k < 87:
 		return genValid(rng)
+	case k < 93:
+		return genGlobalState(rng)
 	}
-	bases := []func(*rand.Rand) c08Prog{genUnused, genMapLit, genFont, genCombine, genMapsMisc, genDeepCopy, genEvents, genValid}
+	bases := []func(*rand.Rand) c08Prog{genUnused, genMapLit, genFont, genCombine, genMapsMisc, genDeepCopy, genEvents, genValid, genGlobalState}
 	return genMalformed(rng, bases[rng.Intn(len(bases))])
 }
 
@@ -1020,6 +1118,7 @@ var c08Corpus = []c08Prog{
 		Witness: `(equals ("a" () 2) ("b" 1 3))`},
 	{Family: "corpus-wrapAny-panic-location", N: 8, Src: "x := [1]\nm := {a:[2] b:x c:x d:x e:x f:x g:x h:[\"a\"]}\nprint m (typeof m)\n"},
 	{Family: "corpus-deepCopy-map-order", N: 8, Src: "m := {h:1 g:2 f:3 e:4 d:5 c:6 b:7 a:8}\nrow := [m] * 3\nprint row[1]\nfor k := range row[2]\n    print k\nend\naa := [m 1] * 2\nprint aa[2] ([[m]] * 2)\n"},
+	{Family: "corpus-global-state", Pristine: true, Src: "print err errmsg pi (len errmsg)\nn := str2num \"12x\"\nprint n err errmsg\npi = 3\n"},
 	{Family: "corpus-design-7-6", N: 2, Dep: true, Src: "a := 1\nb := 2\n"},
 	{Family: "corpus-design-7-8", N: 3, Dep: true, Src: "font {size:\"a\" weight:\"b\" style:1}\n"},
 }
@@ -1062,8 +1161,21 @@ func c08CheckBatch(cfg Config, r *Result, model *Model, progs []c08Prog, inproc 
 				where = append(where, w)
 			}
 		}
+		pristine := ""
+		if p.Pristine || len(p.Src)%16 == 0 { // the new-process runs above share one process per batch; this one is alone
+			if one, err := c08RunChildren([]c08Prog{p}, 1); err == nil {
+				pristine = one[0][0].key()
+				add(one[0][0], "pristine process (this program only)")
+				stats["pristine-process-runs"]++
+			} else {
+				r.Violate(Violation{Kind: "correspondence", Key: "child-process", Detail: "pristine-process run failed: " + err.Error()})
+			}
+		}
+		seq := []string{}
 		for k := 0; k < inproc; k++ {
-			add(c08Observe(p), fmt.Sprintf("in-process #%d", k))
+			o := c08Observe(p)
+			seq = append(seq, o.key())
+			add(o, fmt.Sprintf("in-process #%d", k))
 		}
 		for c := range children {
 			add(children[c][i], fmt.Sprintf("fresh process #%d", c))
@@ -1097,7 +1209,7 @@ func c08CheckBatch(cfg Config, r *Result, model *Model, progs []c08Prog, inproc 
 			}
 		}
 		if len(variants) > 1 {
-			key, detail := c08Classify(p, variants)
+			key, detail := c08Classify(p, variants, seq, pristine)
 			if len(variants) > 4 {
 				variants, where = variants[:4], where[:4]
 			}
@@ -1155,7 +1267,7 @@ func c08CheckBatch(cfg Config, r *Result, model *Model, progs []c08Prog, inproc 
 }
 
 func runC08(cfg Config, r *Result) {
-	r.Rule = "programs from 10 families biased to expose Go map order (4-8 unused variables per scope; map literals with 4-8 values of which most print; font with 3-8 properties of which several are bad; map literals mixing literal/variable/empty composite types; == on maps incl. an ill-typed value; maps printed/compared/tested/copied/iterated; arrays (also nested, also of any) holding maps with 4-8 keys deep-copied by array repetition and then printed/ranged/compared/asserted/mutated; 3-6 event handlers with 8 delivered events; mixed valid programs with seeded rand, read, drawing → SVG; token-level mutations of all of these); each program is parsed/formatted/run/rendered 8x in-process and 3x in fresh processes and all observables (parse error text and order, Format(), class, error text, platform trace, SVG+stdout of pkg/cli, name sets) must be identical; non-trivial = order-relevant map with >= 4 entries, or a mixed/malformed program; distinct = distinct program text."
+	r.Rule = "programs from 11 families biased to expose Go map order (4-8 unused variables per scope; map literals with 4-8 values of which most print; font with 3-8 properties of which several are bad; map literals mixing literal/variable/empty composite types; == on maps incl. an ill-typed value; maps printed/compared/tested/copied/iterated; programs that print/compare/index err, errmsg, pi before any conversion and end with a failing conversion / a success after a failure / an assignment to the globals (with handlers and test in between), each also run alone in a pristine process; arrays (also nested, also of any) holding maps with 4-8 keys deep-copied by array repetition and then printed/ranged/compared/asserted/mutated; 3-6 event handlers with 8 delivered events; mixed valid programs with seeded rand, read, drawing → SVG; token-level mutations of all of these); each program is parsed/formatted/run/rendered 8x in-process and 3x in fresh processes and all observables (parse error text and order, Format(), class, error text, platform trace, SVG+stdout of pkg/cli, name sets) must be identical; non-trivial = order-relevant map with >= 4 entries, or a mixed/malformed program; distinct = distinct program text."
 	if cfg.Replay != "" {
 		c08Replay(cfg, r)
 		return
